@@ -534,6 +534,72 @@ fn case_scrape_under_contention(env: &Env, k0: usize, k1: usize) -> Option<Toks>
     Some(t)
 }
 
+/// the listing requested while DHCP traffic goes on: `n` leases are in the store, a DHCP transaction holds it
+/// when the listing request arrives, and renewals of the leases `renew` (same client, same address, same times:
+/// the row is written again) queue up behind the request.  Whatever the interleaving, the listing is one entry
+/// per stored lease.  Printed as a kind-1 line (via 1).
+fn case_listing_under_renewals(env: &Env, n: usize, renew: &[usize]) -> Option<Toks> {
+    let dhcp = env.dhcp.as_ref()?;
+    let pool = dhcp.verif_pool();
+    let client = Ipv4Addr::LOCALHOST.with_port(40005);
+    let now = now_secs() as u32;
+    let rows: Vec<Row> = (0..n)
+        .map(|i| Row { ip: 0x0a02_0000u32 + i as u32, cid: vec![5, (i >> 8) as u8, i as u8], start: now - 50, expire: now + 5000 + i as u32, options: vec![] })
+        .collect();
+    fn write(p: &Pool, r: &Row) {
+        let _ = p.verif_conn().execute(
+            "INSERT OR REPLACE INTO leases (address, clientid, start, expiry, options) VALUES (?1, ?2, ?3, ?4, ?5)",
+            rusqlite::params![Ipv4Addr::from(r.ip).to_string(), r.cid, r.start, r.expire, r.options],
+        );
+    }
+    let (status, body) = env.rt.block_on(async {
+        {
+            let p = pool.lock().await;
+            let _ = p.verif_conn().execute("DELETE FROM leases", []);
+            for r in &rows {
+                write(&p, r);
+            }
+        }
+        let (tx, rx) = tokio::sync::oneshot::channel::<()>();
+        let (go_tx, go_rx) = tokio::sync::oneshot::channel::<()>();
+        let pool2 = pool.clone();
+        let holder = tokio::spawn(async move {
+            let p = pool2.lock().await;
+            let _ = tx.send(());
+            let _ = go_rx.await;
+            drop(p);
+        });
+        let _ = rx.await;
+        let (conf, d2) = (env.conf.clone(), dhcp.clone());
+        let listing = tokio::spawn(async move { erbium::http::verif::serve(conf, "GET", "/api/v1/leases.json", client, d2).await });
+        tokio::time::sleep(std::time::Duration::from_millis(30)).await;
+        let mut renewals = vec![];
+        for &i in renew {
+            let pool3 = pool.clone();
+            let r = Row { ip: rows[i].ip, cid: rows[i].cid.clone(), start: rows[i].start, expire: rows[i].expire, options: vec![] };
+            renewals.push(tokio::spawn(async move {
+                let p = pool3.lock().await;
+                write(&p, &r);
+            }));
+            tokio::time::sleep(std::time::Duration::from_millis(5)).await;
+        }
+        let _ = go_tx.send(());
+        let out = listing.await.unwrap_or((0, vec![]));
+        for h in renewals {
+            let _ = h.await;
+        }
+        let _ = holder.await;
+        out
+    });
+    let mut t = Toks::new();
+    t.n(1).n(1).n(rows.len() as u64);
+    for r in &rows {
+        put_row(&mut t, r);
+    }
+    put_body(&mut t, status, &body);
+    Some(t)
+}
+
 fn main() {
     harness_main("C20", run);
 }
@@ -571,6 +637,13 @@ pub fn run(args: &Args, out: &mut dyn Write) -> Stats {
         if let Some(t) = case_scrape_under_contention(&env, k0, k1) {
             writeln!(out, "{}", t.0).unwrap();
             stats.bump("gauges.scraped-under-contention");
+        }
+    }
+    // listings requested while leases are renewed: small stores and stores of several hundred leases
+    for (n, renew) in [(5usize, vec![0usize, 1]), (300, vec![2, 3, 4]), (600, vec![3, 4, 5]), (600, vec![0, 299, 300, 599])] {
+        if let Some(t) = case_listing_under_renewals(&env, n, &renew) {
+            writeln!(out, "{}", t.0).unwrap();
+            stats.bump("listing.under-renewals");
         }
     }
     // every byte value once as a one-octet host name (pure renderer when present, else served)
